@@ -32,6 +32,7 @@ type Options struct {
 	MonitorGlobals bool     `json:"monitor_globals"`
 	ReverseMaps    bool     `json:"reverse_maps"`
 	InitPrefixes   []string `json:"init_prefixes"`
+	CompressDiv    int      `json:"compress_div"` // mode A: compressed length = max(1, len/div) instead of len + overhead
 	InitExclude    []string `json:"init_exclude"`
 	Stub           []string `json:"stub"` // extra function names replaced by no-ops
 }
